@@ -259,27 +259,57 @@ func c12(r *Run) {
 	// only when that same buffer is empty, or when callbacks exist (then the handler task is the only reader and it is done)
 	{
 		fn := w.MustFn("(*connection).closeBuffer")
-		cbSet := cmpAtom(func(v ssa.Value) bool {
+		isCb := func(v ssa.Value) bool {
 			n := namedTypeName(v.Type())
 			return n == "OnConnect" || n == "OnRequest"
-		}, isNilConst, neqRel)
+		}
 		n := 0
 		for _, field := range []string{"inputBuffer", "outputBuffer"} {
 			field := field
-			empty := cmpAtom(func(v ssa.Value) bool {
+			sizeOf := func(v ssa.Value) (string, bool) {
 				i, ok := v.(ssa.Instruction)
 				if !ok {
-					return false
+					return "", false
 				}
 				m, ok := callOnField(i, "connection", field)
-				return ok && m == "Len"
-			}, isConstEq(0), eqRel)
+				return m, ok && (m == "Len" || m == "IsEmpty")
+			}
+			// the world in which recycling is wrong: no callbacks, this buffer not empty
+			bad := func(v ssa.Value) (bool, bool) {
+				if m, ok := sizeOf(v); ok && m == "IsEmpty" {
+					return false, true
+				}
+				b, ok := v.(*ssa.BinOp)
+				if !ok {
+					return false, false
+				}
+				x, y := b.X, b.Y
+				if isNilConst(x) || isConstEq(0)(x) {
+					x, y = y, x
+				}
+				switch {
+				case isNilConst(y) && isCb(x):
+					return b.Op == token.EQL, b.Op == token.EQL || b.Op == token.NEQ
+				case isConstEq(0)(y):
+					if m, ok := sizeOf(x); ok && m == "Len" {
+						switch b.Op {
+						case token.EQL, token.LEQ:
+							return false, true
+						case token.NEQ, token.GTR:
+							return true, true
+						}
+					}
+				}
+				return false, false
+			}
 			for _, site := range findIns(fn, func(i ssa.Instruction) bool {
 				m, ok := callOnField(i, "connection", field)
 				return ok && m == "Close"
 			}) {
 				n++
-				r.guarded("C12.R2:recycled-only-when-empty:"+field, "teardown recycles the "+field+" only when that same buffer is empty or the connection has callbacks: on a connection without callbacks the bytes buffered at Close stay readable (and a pending output is not freed under the writer)", fn, site, anyAtom(empty, cbSet), nil, "guarded by "+field+".Len()==0 || onConnect!=nil || onRequest!=nil")
+				site := site
+				r.neverReach("C12.R2:recycled-only-when-empty:"+field, "teardown recycles the "+field+" only when that same buffer is empty or the connection has callbacks: on a connection without callbacks the bytes buffered at Close stay readable (and a pending output is not freed under the writer)", fn, site, []Start{Entry(fn)},
+					func(i ssa.Instruction) bool { return i == site }, nil, nil, bad, "not reachable when "+field+" is non-empty and no callback is set")
 			}
 		}
 		r.ob("C12.R2:recycled-only-when-empty:sites", "closeBuffer recycles both buffers", fn, nil, n >= 2, fmt.Sprintf("%d Close sites", n), false)
